@@ -51,7 +51,7 @@ func init() {
 			}},
 		Rule{ID: "C18.m", Explain: "what is written can be read back: the text forms of revocation.Hash and of big.Int are written and read with the same base64 alphabet (the encoding objects referenced by String/MarshalJSON/MarshalText and by UnmarshalJSON/UnmarshalText of each type are the same set) - with the URL alphabet on one side only, three hashes in four cannot be read back.",
 			Run: func(P *Program, R *Report) { base64AlphabetsRule(P, R, "C18.m") }},
-		Rule{ID: "C18.j", Explain: "decoding into a value that was used before leaves nothing of its previous content: in Update.uncompress and EventList.uncompress every exported field of the receiver that the function assigns at all is assigned on every path to its return (a field that is only replaced when the message carries it keeps the events of the previous message).",
+		Rule{ID: "C18.j", Explain: "decoding into a value that was used before leaves nothing of its previous content: in Update.uncompress and EventList.uncompress every exported field of the receiver that the function assigns at all, and every field in which the type's Verify remembers its verdict (verified, validationErr), is assigned on every path to its return (a field that is only replaced when the message carries it keeps the events of the previous message; a remembered error makes the next, valid list fail).",
 			Run: func(P *Program, R *Report) { decodersResetRule(P, R, "C18.j") }},
 		Rule{ID: "C18.l", Explain: "no decoder or encoder drops a failure: in the Marshal*/Unmarshal*/compress/uncompress functions of the module and the key-file loaders and writers of gabikeys an error of a step is looked at (same rule as C08.g: the error a call returns has a use - a nil test or a return - before it is overwritten, shadowed or left behind).",
 			Run: func(P *Program, R *Report) { errorResultsUsedRule(P, R, "C18.l", func(fn *ssa.Function) bool { n := fn.Name(); return strings.Contains(n, "arshal") || strings.Contains(n, "ompress") || inFiles(P, "gabikeys/marshaling.go", "gabikeys/keys.go", "signed/")(fn) }, nil, 15) }},
@@ -847,6 +847,15 @@ func decodersResetRule(P *Program, R *Report, rule string) {
 				fields[f] = true
 			}
 		})
+		// what the type's Verify remembers about a value (its verdict, the error it found) describes the previous
+		// content: the decoder has to reset every such field as well
+		if vf := P.Func(strings.Replace(key, ".uncompress", ".Verify", 1)); vf != nil && vf.Blocks != nil {
+			for _, st := range receiverStores(vf) {
+				if fa, ok := st.Addr.(*ssa.FieldAddr); ok && fa.X == ssa.Value(vf.Params[0]) {
+					fields[faName(fa)] = true
+				}
+			}
+		}
 		for _, f := range sortedKeys(fields) {
 			f := f
 			n++
